@@ -168,6 +168,9 @@ def make_probe(rep):
                 k += 1
                 continue
             t = ts[k]
+            if t[0] == 'punct' and t[1] in '([{' and k >= 2 and ts[k - 1][1] == '!' and ts[k - 2][0] == 'ident':
+                k = match_close(ts, k) + 1  # macro arguments (quote! templates) are not code
+                continue
             if t[0] == 'ident' and t[1] in ('for', 'while', 'loop') and ts[k - 1][1] != '.':
                 j = k + 1
                 while j < end:
@@ -303,6 +306,12 @@ def run_unit(unit_path, prop, tier, seed):
                         labels.append('%s.%s' % (m.group(1), m.group(2)))
             if 1 <= s['line'] <= len(gen_lines):
                 texts_.append('%d: %s%s' % (s['line'], gen_lines[s['line'] - 1].strip()[:160], (' <- ' + s['label']) if s.get('label') else ''))
+        if not labels and 'decreases' in d['message'].lower():
+            # termination-measure failures are reported at the recursive call: name the function's decreases clause
+            for b in blocks:
+                for i, ln in enumerate(gen_lines):
+                    if owner[i] == b and re.search(r'\bdecreases\b', ln):
+                        labels.extend('%s.%s' % (m.group(1), m.group(2)) for m in LABEL.finditer(ln))
         # a labelled clause belongs to the properties its labels name; an unlabelled failure (overflow, callee
         # precondition, proof hint) belongs to the properties of the function it occurs in
         props = set(l.split('.')[0] for l in labels)
@@ -401,6 +410,13 @@ def main():
     witness = extras.get('witness')
     lines = []
     replay_paths = []
+    seen_labels = set()
+    uniq = []
+    for v in violations:
+        if v['label'] not in seen_labels:
+            seen_labels.add(v['label'])
+            uniq.append(v)
+    violations = uniq
     for v in violations:
         safe = re.sub(r'[^A-Za-z0-9_.\-]', '_', v['label'])
         rp = os.path.join(REPLAY, '%s-%s.json' % (prop, safe))
